@@ -96,13 +96,14 @@ pub fn opt_insert<K, V>(g: &mut Option<OrderedMap<K, V>>, k: K, v: V) -> (r: Opt
         match r { Some(o) => omap(*old(g)).contains_key(k) && o == omap(*old(g))[k], None => !omap(*old(g)).contains_key(k) },
 { unimplemented!() }
 
-pub struct ChanSender<T> { pub sent: Ghost<Seq<T>>, pub failures: Ghost<nat> }
+pub struct ChanSender<T> { pub sent: Ghost<Seq<T>>, pub failures: Ghost<nat>, pub fulls: Ghost<nat> }
 impl<T> ChanSender<T> {
     #[verifier::external_body]
     pub fn send(&mut self, v: T) -> (r: Result<(), ChanSendError>)
         ensures
             r is Ok ==> final(self).sent@ == old(self).sent@.push(v) && final(self).failures@ == old(self).failures@,
             r is Err ==> final(self).sent@ == old(self).sent@ && final(self).failures@ == old(self).failures@ + 1,
+            final(self).fulls == old(self).fulls,
     { unimplemented!() }
 }
 #[verifier::external_body]
@@ -165,6 +166,7 @@ impl<T> ChanSender<T> {
         ensures
             r is Ok ==> final(self).sent@ == old(self).sent@.push(v) && final(self).failures@ == old(self).failures@,
             r is Err ==> final(self).sent@ == old(self).sent@ && final(self).failures@ == old(self).failures@ + 1,
+            final(self).fulls == old(self).fulls,
     { unimplemented!() }
 }
 /// the point where a relay builds the flow it writes in answer to the peer (echo, drain answer), under ITS copy of the output handle
@@ -256,14 +258,14 @@ impl LinkRelay<OutputHandle> {
 //@@ fn file=fe2o3-amqp/src/link/mod.rs impl=`impl LinkRelay<OutputHandle>` name=on_incoming_transfer
 //@@ subst `InputHandle::from(` => `handle_to_input(` rule=R16
 //@@ subst `|_v0|` => `|_v0: ChanSendError|` rule=optional-R5
-//@@ subst `tx .send(LinkFrame::Transfer { __E1 })` => `tx.send_when_room(LinkFrame::Transfer { __E1 }, Ghost(queue_has_room))` rule=R9
+//@@ subst `tx .send(LinkFrame::Transfer { __E1 })` => `tx.send_when_room(LinkFrame::Transfer { __E1 }, Ghost(queue_has_room))` rule=optional-R9
 //@@ entry
         let ghost queue_has_room: bool = arbitrary();      // whether the bounded queue to the link endpoint has a free slot at this moment: it is drained only by the APPLICATION's recv()
 //@@ spec
     ensures
         *old(self) is Sender ==> r is Err && *final(self) == *old(self),                                     // [C15.relay.transfer-to-sender] a transfer addressed to a sending link is an error and has no effect
         *old(self) is Receiver && r is Ok && final(self)->Receiver_tx.failures@ == old(self)->Receiver_tx.failures@ ==> final(self)->Receiver_tx.sent@ == old(self)->Receiver_tx.sent@.push(
-            LinkFrame::Transfer { input_handle: InputHandle(transfer.handle.0), performative: transfer, payload }),   // [C10.relay.forward] the frame is forwarded to the link unchanged (performative and payload) [C01.relay.forward]
+            LinkFrame::Transfer { input_handle: InputHandle(transfer.handle.0), performative: transfer, payload }),   // [C10.relay.forward] the frame is forwarded to the link unchanged (performative and payload) [C01.relay.forward] [C16.relay.frame-waits-for-room] -- and it is forwarded whenever the link endpoint is alive: a full queue (nobody polling recv() at the moment, e.g. after a cancelled recv) is waited out, the frame is not dropped
         *old(self) is Receiver ==> r is Ok,                                                                   // [C13.drop.in-flight-transfer-discarded] a transfer for a receiving link is never an error of the session: when the local endpoint is gone (the Receiver was dropped and its detach is on its way) a delivery that was still in flight is discarded -- it must not end the session (and, through it, the connection)
         *old(self) is Receiver && final(self)->Receiver_tx.failures@ > old(self)->Receiver_tx.failures@ ==> r == Ok::<Option<(DeliveryNumber, DeliveryTag)>, LinkRelayError>(None),
         *old(self) is Receiver && r is Ok && r->Ok_0 is Some ==>
@@ -737,12 +739,13 @@ impl ErrInto<DispositionError> for DispositionError { open spec fn conv(self) ->
 pub struct LinkH { pub output_handle: Option<OutputHandle> }
 impl LinkH { pub fn output_handle_mut(&mut self) -> (r: &mut Option<OutputHandle>) ensures *r == old(self).output_handle, final(self).output_handle == *final(r) { &mut self.output_handle } }
 impl<T> ChanSender<T> {
-    /// mpsc::Sender::try_send: queues now or fails (full / closed), never waits
+    /// mpsc::Sender::try_send: queues now or fails, never waits -- it fails when the receiving end is gone (`failures`) AND when the bounded queue is momentarily full (`fulls`: the other end is alive)
     #[verifier::external_body]
     pub fn try_send(&mut self, v: T) -> (r: Result<(), ChanSendError>)
         ensures
-            r is Ok ==> final(self).sent@ == old(self).sent@.push(v) && final(self).failures@ == old(self).failures@,
-            r is Err ==> final(self).sent@ == old(self).sent@ && final(self).failures@ == old(self).failures@ + 1,
+            r is Ok ==> final(self).sent@ == old(self).sent@.push(v) && final(self).failures@ == old(self).failures@ && final(self).fulls@ == old(self).fulls@,
+            r is Err ==> final(self).sent@ == old(self).sent@ && final(self).failures@ >= old(self).failures@ && final(self).fulls@ >= old(self).fulls@
+                && final(self).failures@ + final(self).fulls@ == old(self).failures@ + old(self).fulls@ + 1,
     { unimplemented!() }
 }
 /// SenderInner / ReceiverInner reduced to what their Drop touches (R11)
@@ -750,7 +753,7 @@ pub struct EndpointD { pub link: LinkH, pub outgoing: ChanSender<LinkFrame> }
 pub open spec fn drop_contract(o: EndpointD, n: EndpointD) -> bool {
     &&& n.link.output_handle is None                                                                            // [C13.drop.handle-released] after the drop the link holds no handle: nothing can be written for it any more
     &&& (o.link.output_handle is None ==> n.outgoing.sent@ == o.outgoing.sent@)                                  // [C13.drop.no-second-detach] a link that has already sent (or never needed) its detach writes nothing when dropped
-    &&& (o.link.output_handle is Some ==> (n.outgoing.sent@ == o.outgoing.sent@ && n.outgoing.failures@ > o.outgoing.failures@)
+    &&& (o.link.output_handle is Some ==> (n.outgoing.sent@ == o.outgoing.sent@ && n.outgoing.failures@ + n.outgoing.fulls@ > o.outgoing.failures@ + o.outgoing.fulls@)
             || n.outgoing.sent@ == o.outgoing.sent@.push(LinkFrame::Detach(Detach { handle: Handle(o.link.output_handle->Some_0.0), closed: true, error: None })))   // [C13.drop.one-closing-detach] otherwise exactly one CLOSING detach for the link's own handle is queued (or none if the channel to the session refuses it)
 }
 impl EndpointD {
